@@ -327,7 +327,12 @@ def random_term_configs(tier, seed, n_quick=4000, n_thorough=60000):
     from . import randterms as RT
     n = n_quick if tier == 'quick' else n_thorough
     terms = CURATED_TERMS + RT.generate(seed * 7919 + 17, n)
-    return [terms_config('random-programs-%d' % i, terms[i:i + 20000]) for i in range(0, len(terms), 20000)]
+    cfgs = [terms_config('random-programs-%d' % i, terms[i:i + 20000]) for i in range(0, len(terms), 20000)]
+    wide = RT.generate_wide(seed * 31 + 7, 1200 if tier == 'quick' else 20000)
+    cfgs.append(terms_config('wide-programs', wide))
+    for c in cfgs:
+        c['params'] = dict(c.get('params') or {}, members=True)
+    return cfgs
 
 
 RANDOM_PROGRAMS_FOR = {'C01', 'C03', 'C04', 'C05', 'C08', 'C09', 'C10'}      # C02 lists them in compose_configs
